@@ -31,8 +31,11 @@ Top(s) == s[Len(s)]
 \* the text (value) a generated token of a kind carries at input position i - the Go harness
 \* concretises with the same scheme (harness/pools.go), so trees are comparable field by field
 TokVal(kind, i) ==
-  CASE kind = "word"   -> "w" \o ToString(i)
-    [] kind = "quoted" -> "q " \o ToString(i)
+  CASE kind = "word"   -> IF i % 3 = 1 THEN "w*" \o ToString(i) ELSE "w" \o ToString(i)       \* typed w\*1: an escaped wildcard
+    [] kind = "quoted" -> CASE i % 4 = 1 -> "q*" \o ToString(i)                                  \* "q*1" - not a pattern
+                            [] i % 4 = 2 -> "q " \o ToString(i)
+                            [] i % 4 = 3 -> "/q" \o ToString(i) \o "/"                            \* "/q3/" - not a regexp
+                            [] OTHER     -> ToString(i)                                          \* "4" - not a number
     [] kind = "wild"   -> "w" \o ToString(i) \o "*"
     [] kind = "star"   -> "*"
     [] kind = "regexp" -> "/r" \o ToString(i) \o "/"
